@@ -49,4 +49,14 @@ def dropSelfact : List Ev → List Ev
 /-- the state with the updaters' own `active` flags forgotten -/
 def St.forget (st : St) : St := { st with act := fun _ => false }
 
+/-- several device objects alive in one process: device `i` starts in `sts i`; an event tagged
+    `i` is an event on device `i` and touches nothing else (each device has its own facade,
+    relayers, dispatcher and listener table).  Result per device: its final state and what ITS
+    listeners received. -/
+def runTagged (sts : Nat → St) : List (Nat × Ev) → Nat → St × List Out
+  | [] => fun d => (sts d, [])
+  | (i, e) :: rest => fun d =>
+      let r := runTagged (fun j => if j = i then (step (sts j) e).1 else sts j) rest d
+      (r.1, (if d = i then (step (sts d) e).2 else []) ++ r.2)
+
 end PyatvModel.C10
